@@ -171,8 +171,13 @@ func c15Check(c C15Case, rec *evid.Rec) error {
 			continue
 		}
 		doneGet++
+		*real.Loads = (*real.Loads)[:0]
+		LpTransform := -1
+		if _, terr := (traversal.Progress{Cfg: cfg()}).FocusedTransform(real.Root, path, func(_ traversal.Progress, n datamodel.Node) (datamodel.Node, error) { return n, nil }, false); terr == nil {
+			LpTransform = len(*real.Loads)
+		}
 		for M := 0; M <= Lp+1; M++ {
-			for _, fn := range []string{"Get", "Focus"} {
+			for _, fn := range []string{"Get", "Focus", "FocusedTransform"} {
 				*real.Loads = (*real.Loads)[:0]
 				prog := traversal.Progress{Cfg: cfg(), Budget: &traversal.Budget{NodeBudget: bigBudget, LinkBudget: int64(M)}}
 				var got datamodel.Node
@@ -181,17 +186,30 @@ func c15Check(c C15Case, rec *evid.Rec) error {
 					var e error
 					if fn == "Get" {
 						got, e = prog.Get(real.Root, path)
+					} else if fn == "FocusedTransform" {
+						// the identity update along the path: it crosses the same links (its own link-crossing code)
+						_, e = prog.FocusedTransform(real.Root, path, func(_ traversal.Progress, n datamodel.Node) (datamodel.Node, error) {
+							got = n
+							return n, nil
+						}, false)
 					} else {
 						e = prog.Focus(real.Root, path, func(_ traversal.Progress, n datamodel.Node) error { got = n; return nil })
 					}
 					return e
 				})
 				loads := len(*real.Loads)
+				Lp := Lp
+				if fn == "FocusedTransform" {
+					Lp = LpTransform // it does not dereference a link that is the target itself
+					if Lp < 0 {
+						continue
+					}
+				}
 				if M >= Lp {
 					if gerr != nil || loads != Lp {
 						return fmt.Errorf("%s of %q crosses %d links; with a link budget of %d it made %d loads and returned %v", fn, path, Lp, M, loads, gerr)
 					}
-					if eq, _ := deepEqualGuarded(got, full); !eq {
+					if eq, _ := deepEqualGuarded(got, full); !eq && fn != "FocusedTransform" {
 						return fmt.Errorf("%s of %q with a sufficient link budget %d returns another node", fn, path, M)
 					}
 				} else {
@@ -331,7 +349,7 @@ func c15Check(c C15Case, rec *evid.Rec) error {
 
 var c15Part = evid.Part[C15Case]{
 	Prop: "C15", Name: "controls", Quick: 700, Thorough: 280000,
-	Rule: "(graph, selector) from the C07 generators; against the unrestricted WalkAdv: node budget N for every N in 0..V+1, link budget M for every M in 0..L+1 (also on WalkTransforming with the identity function, and on Get and Focus along visited paths that cross links), StartAtPath for every visited path, LinkVisitOnlyOnce, and a loader returning SkipMe for a drawn set of links — each control alone; non-trivial = at least two controls actually bind (N<V, M<L, start index>0, a repeated link, a skipped link that is loaded); distinct by (graph, selector, skip set); the class 'walks' counts restricted walks executed",
+	Rule: "(graph, selector) from the C07 generators; against the unrestricted WalkAdv: node budget N for every N in 0..V+1, link budget M for every M in 0..L+1 (also on WalkTransforming with the identity function, and on Get, Focus and FocusedTransform (identity) along visited paths that cross links), StartAtPath for every visited path, LinkVisitOnlyOnce, and a loader returning SkipMe for a drawn set of links — each control alone; non-trivial = at least two controls actually bind (N<V, M<L, start index>0, a repeated link, a skipped link that is loaded); distinct by (graph, selector, skip set); the class 'walks' counts restricted walks executed",
 	Gen: func(t *rapid.T) C15Case {
 		c := genGraphSelOpt(t, rapid.IntRange(1, 4).Draw(t, "seldepth"), true)
 		if rapid.IntRange(0, 2).Draw(t, "broad") == 0 {
